@@ -12,6 +12,8 @@ func TestVerif(t *testing.T) {
 		oneMain(t)
 	case "replay":
 		replayMain(t)
+	case "minimise":
+		minimiseMain(t)
 	case "check":
 		checkMain(t)
 	case "determinism":
